@@ -118,11 +118,8 @@ pub fn exec(case: &str) -> Exec {
             ex.tags.push(format!("flags:{flags}"));
             // the tie with the reader models
             let r = read(&fmt, &o, &bytes);
-            let has_seqres = fmt == "pdb" && String::from_utf8_lossy(&bytes).lines().any(|l| l.starts_with("SEQRES"));
-            if !has_seqres {
-                ex.req = format!("{} read {} {} {}", if fmt == "pdb" { "pdb" } else { "cif" }, level, flags, enc_bytes(&bytes));
-                ex.resp = if fmt == "pdb" { outcome_tok(&r) } else { strip_lines(&outcome_tok(&r)) };
-            }
+            ex.req = format!("{} read {} {} {}", if fmt == "pdb" { "pdb" } else { "cif" }, level, flags, enc_bytes(&bytes));
+            ex.resp = if fmt == "pdb" { outcome_tok(&r) } else { strip_lines(&outcome_tok(&r)) };
             if let Read::Panic(m) = &r { ex.failures.push(Failure::new("reader-panicked", m.clone())); return ex; }
             let feats = |f: Failure| f.feat("format", &fmt).feat("flags", &flags).feat("level", &level);
             // discard_hydrogens == reading the text with its hydrogen records deleted
